@@ -29,9 +29,11 @@ type c17Op struct {
 }
 
 type C17Plan struct {
-	Ops      []c17Op  `json:"ops"`
-	Shutdown bool     `json:"shutdown"` // finish with Shutdown of both nodes instead of closing everything first
-	Shrink   []string `json:"_shrink"`
+	Ops      []c17Op `json:"ops"`
+	Shutdown bool    `json:"shutdown"` // finish with Shutdown of both nodes instead of closing everything first
+	// sockets opened (and closed again) by that many application goroutines at the very time of the shutdown
+	OpenAtShutdown int      `json:"open_at_shutdown"`
+	Shrink         []string `json:"_shrink"`
 }
 
 var c17Kinds = []string{"lp", "lpa", "ls", "lsa", "send", "burst-close", "dial", "dial-cancel", "dial-unbound", "ping", "ping-unknown", "close", "close", "close2", "conn-close", "conn-closeconn", "accept-close"}
@@ -39,6 +41,9 @@ var c17Kinds = []string{"lp", "lpa", "ls", "lsa", "send", "burst-close", "dial",
 func genC17(seed uint64, tier string) any {
 	r := simnet.NewRng(seed, "c17")
 	p := &C17Plan{Shrink: []string{"ops"}, Shutdown: r.Bool(0.4)}
+	if p.Shutdown && r.Bool(0.6) {
+		p.OpenAtShutdown = r.Range(1, 6)
+	}
 	n := r.Range(5, 16)
 	if tier == "thorough" {
 		n = r.Range(8, 40)
@@ -337,9 +342,25 @@ func runC17(t *testing.T, planAny any, res *simnet.Result) {
 		wg.Wait()
 		time.Sleep(time.Second)
 		if p.Shutdown {
+			// applications keep opening and closing sockets while the node is being shut down
+			var lw sync.WaitGroup
+			for i := 0; i < p.OpenAtShutdown; i++ {
+				lw.Add(1)
+				go func(i int) {
+					defer lw.Done()
+					nc := m.Nodes[ids[i%len(ids)]].Net()
+					for k := 0; k < 3; k++ {
+						if pc, err := nc.ListenPacket(fmt.Sprintf("x%d_%d", i, k)); err == nil {
+							_ = pc.Close()
+						}
+						time.Sleep(time.Duration(simnet.H(res.Seed, "open-at-shutdown", i, k)%3) * time.Microsecond)
+					}
+				}(i)
+			}
 			for _, id := range ids {
 				m.Nodes[id].Stop()
 			}
+			lw.Wait()
 			res.Add("probe_shutdown_with_open_objects", 1)
 		} else {
 			mu.Lock()
